@@ -7,3 +7,17 @@ package wlru
 // The wrappers of this package have no contracts of their own: they are executed in place wherever a function under
 // contract calls them. Lock discipline (C28): the wrapped cache may only be reached with the wrapper's lock held.
 //@ guarded Cache.lru by lock
+//@
+//@ // the two check-then-act operations are operations of their own (they defer their unlock, so they are not executed in
+//@ // place): the check and the insertion happen in ONE critical section (obligation lock.atomic: the method does not
+//@ // take its receiver's lock a second time after releasing it)
+//@ func (*Cache).ContainsOrAdd
+//@   requires c != nil && lruinv(c.lru) && cwsum(c.lru) + weight <= 18446744073709551615
+//@   modifies c.lru.items[*], c.lru.weight, lel[c.lru.evictList], llen[c.lru.evictList], lidx[*], lown[*], nEvict, gEvictKey, gEvictVal, all(simplewlru.entry).value, all(simplewlru.entry).weight
+//@   ensures  lruinv(c.lru) && result0 == old(lhas(c.lru, key))
+//@   ensures  [kept] result0 ==> result1 == 0 && lval(c.lru, key) == old(lval(c.lru, key))
+//@ func (*Cache).PeekOrAdd
+//@   requires c != nil && lruinv(c.lru) && cwsum(c.lru) + weight <= 18446744073709551615
+//@   modifies c.lru.items[*], c.lru.weight, lel[c.lru.evictList], llen[c.lru.evictList], lidx[*], lown[*], nEvict, gEvictKey, gEvictVal, all(simplewlru.entry).value, all(simplewlru.entry).weight
+//@   ensures  lruinv(c.lru) && result1 == old(lhas(c.lru, key))
+//@   ensures  [kept] result1 ==> result0 == old(lval(c.lru, key)) && result2 == 0
